@@ -20,15 +20,17 @@ Proof. destruct o; reflexivity. Qed.
 Lemma key_bytes_cons k l : key_bytes (k :: l) = len k + key_bytes l.
 Proof. reflexivity. Qed.
 
-Lemma inv_rem_eq ty G r1 r2 E acc b : r1 = r2 -> inv ty G r1 E acc b -> inv ty G r2 E acc b.
+Lemma ver3_ok : 1 <= 3 <= 3. Proof. lia. Qed.
+
+Lemma inv_rem_eq ty G r1 r2 E acc b : r1 = r2 -> inv 3 ty G r1 E acc b -> inv 3 ty G r2 E acc b.
 Proof. intros ->. auto. Qed.
 
 (* ---------- single calls: the invariant survives accepted and rejected calls alike ---------- *)
 Lemma calls_inv ty ops : forall G rem E acc b,
-  inv ty G (key_bytes (map BuilderInv.op_key (accepted_ops (b_last b) ops)) + rem) E acc b ->
+  inv 3 ty G (key_bytes (map BuilderInv.op_key (accepted_ops (b_last b) ops)) + rem) E acc b ->
   last_ok acc b -> Forall op_ok ops ->
   Forall (fun r => r <> Panic) (snd (run_calls b ops)) /\
-  exists E' acc', inv ty G rem E' acc' (fst (run_calls b ops)) /\ last_ok acc' (fst (run_calls b ops)).
+  exists E' acc', inv 3 ty G rem E' acc' (fst (run_calls b ops)) /\ last_ok acc' (fst (run_calls b ops)).
 Proof.
   induction ops as [|o r IH]; intros G rem E acc b Hinv Hlast Hok.
   - cbn [run_calls fst snd accepted_ops map] in *. split; [constructor|]. exists E, acc. split; auto.
@@ -38,9 +40,9 @@ Proof.
     destruct (spec_call (b_last b) o) as [l' x] eqn:Hsc. cbn [fst snd] in *.
     destruct x as [[]|e|]; [| |contradiction].
     + cbn [map] in Hinv. rewrite key_bytes_cons in Hinv.
-      assert (Hinv' : inv ty G (len (BuilderInv.op_key o) + (key_bytes (map BuilderInv.op_key (accepted_ops l' r)) + rem)) E acc b).
+      assert (Hinv' : inv 3 ty G (len (BuilderInv.op_key o) + (key_bytes (map BuilderInv.op_key (accepted_ops l' r)) + rem)) E acc b).
       { eapply inv_rem_eq; [|exact Hinv]. lia. }
-      destruct (BuilderProofs4.apply_op_ok codec_holds compile_total_holds ty G _ E acc b o l' Hinv' Hlast Ho Hsc)
+      destruct (BuilderProofs4.apply_op_ok codec_holds compile_total_holds ty 3 false ver3_ok G _ E acc b o l' Hinv' Hlast Ho Hsc)
         as (E1 & b1 & Hap & Hi1 & Hl1 & Hbl1 & _).
       rewrite Hap. cbn [fst snd]. subst l'.
       destruct (IH G rem E1 _ b1 Hi1 Hl1 Hoks) as (HF & HE). split; [|exact HE].
@@ -57,7 +59,7 @@ Theorem calls_never_panic ty rows cols ops :
 Proof.
   intros Hok Hsize.
   set (kb := key_bytes (map BuilderInv.op_key (accepted_ops None ops))).
-  destruct (init_inv ty rows cols (1 + kb) (kb + 0)) as (Hi0 & Hl0 & _); [lia|exact Hsize|].
+  destruct (init_inv ty 3 (rows * cols =? 0) ver3_ok rows cols (1 + kb) (kb + 0) eq_refl) as (Hi0 & Hl0 & _); [lia|exact Hsize|].
   exact (proj1 (calls_inv ty ops (1 + kb) 0 [] [] (new_builder ty rows cols) Hi0 Hl0 Hok)).
 Qed.
 
@@ -114,7 +116,7 @@ Qed.
 (* extend_iter / extend_stream / from_iter: only the calls before the first rejected one are
    executed, so the budget is over the accepted prefix *)
 Lemma extend_inv ty ops : forall G rem E acc b,
-  inv ty G (key_bytes (map BuilderInv.op_key (fst (accepted_prefix (b_last b) ops))) + rem) E acc b ->
+  inv 3 ty G (key_bytes (map BuilderInv.op_key (fst (accepted_prefix (b_last b) ops))) + rem) E acc b ->
   last_ok acc b -> Forall op_ok ops -> snd (run_extend b ops) <> Panic.
 Proof.
   induction ops as [|o r IH]; intros G rem E acc b Hinv Hlast Hok; [discriminate|].
@@ -124,9 +126,9 @@ Proof.
   destruct (spec_call (b_last b) o) as [l' x] eqn:Hsc. cbn [fst snd] in *.
   destruct x as [[]|e|]; [| |contradiction].
   - cbn [fst map] in Hinv. rewrite key_bytes_cons in Hinv.
-    assert (Hinv' : inv ty G (len (BuilderInv.op_key o) + (key_bytes (map BuilderInv.op_key (fst (accepted_prefix l' r))) + rem)) E acc b).
+    assert (Hinv' : inv 3 ty G (len (BuilderInv.op_key o) + (key_bytes (map BuilderInv.op_key (fst (accepted_prefix l' r))) + rem)) E acc b).
     { eapply inv_rem_eq; [|exact Hinv]. lia. }
-    destruct (BuilderProofs4.apply_op_ok codec_holds compile_total_holds ty G _ E acc b o l' Hinv' Hlast Ho Hsc)
+    destruct (BuilderProofs4.apply_op_ok codec_holds compile_total_holds ty 3 false ver3_ok G _ E acc b o l' Hinv' Hlast Ho Hsc)
       as (E1 & b1 & Hap & Hi1 & Hl1 & Hbl1 & _).
     rewrite Hap. subst l'. exact (IH G rem E1 _ b1 Hi1 Hl1 Hoks).
   - destruct Hsp as (Hap & _). rewrite Hap. discriminate.
@@ -142,7 +144,7 @@ Theorem extend_closed ty rows cols ops :
 Proof.
   intros Hok Hsize b0.
   set (kb := key_bytes (map BuilderInv.op_key (fst (accepted_prefix None ops)))).
-  destruct (init_inv ty rows cols (1 + kb) (kb + 0)) as (Hi0 & Hl0 & _); [lia|exact Hsize|].
+  destruct (init_inv ty 3 (rows * cols =? 0) ver3_ok rows cols (1 + kb) (kb + 0) eq_refl) as (Hi0 & Hl0 & _); [lia|exact Hsize|].
   pose proof (extend_inv ty ops (1 + kb) 0 [] [] b0 Hi0 Hl0 Hok) as Hnp.
   destruct (extend_stops_at_first_error ops b0 Hnp) as (A & B & C). auto.
 Qed.
